@@ -15,6 +15,10 @@ Proof. vm_compute. reflexivity. Qed.
 Lemma omc_R : R_of one_minus_cutoff = / 2 /\ fin one_minus_cutoff.
 Proof. rewrite omc_half. exact half_R. Qed.
 
+(** the default-cutoff function is the explicit-cutoff function at the regenerated QUANTIZE_CUTOFF *)
+Lemma q2s_cut_default t s : q2s_cut cutoff t s = q2s t s.
+Proof. reflexivity. Qed.
+
 (** * Elementary facts *)
 Lemma format_IZR_small (z : Z) : (Z.abs z < 2 ^ 53)%Z -> generic_format radix2 fexp (IZR z).
 Proof.
